@@ -55,7 +55,7 @@ def gen_case(rng, max_n=40):
     else:
         F = [[float(i)] + [float(N - i)] * (M - 1) for i in range(N)]
     metric = rng.choice(["cityblock", "cityblock", "cityblock", "euclidean", "euclidean", "sqeuclidean", "chebyshev", "chebyshev"] + OTHER)
-    norm = rng.choice(["none", "none", "ideal-nadir", "pf", "pf+ideal"])
+    norm = rng.choice(["none", "none", "ideal-nadir", "pf", "pf+ideal", "pf+nadir"])
     if metric == "mahalanobis" and not (norm == "none" and style == "cont" and N >= M + 3):
         metric = "seuclidean"          # a covariance matrix needs enough points in general position
     case = {"F": F, "metric": metric, "norm": norm, "style": style, "seed": rng.randrange(2 ** 31)}
@@ -69,10 +69,13 @@ def gen_case(rng, max_n=40):
         if rng.random() < 0.25:
             j = rng.randrange(M); hi[j] = lo[j]                      # ideal == nadir in one dimension
         case["ideal"] = lo.tolist(); case["nadir"] = hi.tolist()
-        if norm in ("pf", "pf+ideal"):
+        if norm in ("pf", "pf+ideal", "pf+nadir"):
             K = rng.randint(2, 6)
             pf = [[lo[j] + (hi[j] - lo[j]) * rng.choice([0.0, 1.0, rng.random()]) for j in range(M)] for _ in range(K)]
             pf[0] = lo.tolist(); pf[1] = hi.tolist()
+            if norm != "pf" and rng.random() < 0.7:
+                # the reference point given directly differs from the corresponding extreme of the Pareto front
+                pf = [[lo[j] + (hi[j] - lo[j]) * (0.25 + 0.5 * rng.random()) for j in range(M)] for _ in range(K)]
             case["pf"] = pf
     return case
 
@@ -86,6 +89,8 @@ def make_indicator(case):
         kw.update(zero_to_one=True, pf=np.array(case["pf"]))
     elif case["norm"] == "pf+ideal":
         kw.update(zero_to_one=True, pf=np.array(case["pf"]), ideal=np.array(case["ideal"]))
+    elif case["norm"] == "pf+nadir":
+        kw.update(zero_to_one=True, pf=np.array(case["pf"]), nadir=np.array(case["nadir"]))
     return SpacingIndicator(**kw)
 
 
@@ -239,7 +244,9 @@ class C20(Check):
         if case["norm"] != "none":
             # zero_to_one = value computed on objectives rescaled by ideal and nadir (a dimension with ideal = nadir is only translated)
             lo = np.array(case["ideal"]) if case["norm"] in ("ideal-nadir", "pf+ideal") else np.array(case["pf"]).min(axis=0)
-            hi = np.array(case["nadir"]) if case["norm"] == "ideal-nadir" else np.array(case["pf"]).max(axis=0)
+            hi = np.array(case["nadir"]) if case["norm"] in ("ideal-nadir", "pf+nadir") else np.array(case["pf"]).max(axis=0)
+            if case["norm"] == "pf+nadir":
+                lo = np.array(case["pf"]).min(axis=0)
             F = np.array(case["F"], dtype=float)
             w = np.where(hi == lo, 1.0, hi - lo)
             R = (F - lo) / w
@@ -259,7 +266,7 @@ class C20(Check):
         else:
             fn = "(normalize_z2o (X:=Fx) %s %s %s)" % (cfl(decarr(obs["ideal"])), cfl(decarr(obs["nadir"])), cfmat(F))
         parts.append("fmat_same %s %s" % (fn, cfmat(Xn)))
-        if case["norm"] in ("pf", "pf+ideal"):
+        if case["norm"] in ("pf", "pf+ideal", "pf+nadir"):
             pf = np.array(case["pf"], dtype=float); M = pf.shape[1]
             if case["norm"] == "pf":
                 parts.append("flist_same (map (col_min (X:=Fx) %s) (seq 0 %d)) %s" % (cfmat(pf), M, cfl(decarr(obs["ideal"]))))
